@@ -483,6 +483,15 @@ class Engine:
         if isinstance(op, ast.Sub) and isinstance(a, SSet) and isinstance(b, SSet) and a.ek == b.ek:
             x = z3.Const("setx!", sort_of(a.ek))
             return SSet(z3.Lambda([x], z3.And(z3.Select(a.member, x), z3.Not(z3.Select(b.member, x)))), a.ek)
+        if isinstance(op, ast.Mult) and isinstance(a, STup) and isinstance(b, (SInt, SConc)) and not isinstance(b, SBool):
+            # sequence repetition: concrete count -> concrete tuple; symbolic count only for a 1-element sequence (constant sequence of that length)
+            cnt = z3.simplify(b.t) if isinstance(b, SInt) else z3.IntVal(int(b.v))
+            if z3.is_int_value(cnt):
+                return STup(a.items * max(cnt.as_long(), 0), a.pykind)
+            if len(a.items) == 1 and getattr(a.items[0], "kind", None) in ("int", "obj"):
+                it = a.items[0]
+                return SSeq(z3.K(I, it.t), z3.If(cnt > 0, cnt, 0), it.kind, a.pykind)
+            raise OutOfSubset("repetition of a multi-element tuple a symbolic number of times")
         if isinstance(op, ast.Add) and isinstance(a, (SSeq, STup)) and isinstance(b, (SSeq, STup)):
             if isinstance(a, STup) and isinstance(b, STup):
                 return STup(a.items + b.items, a.pykind)
